@@ -314,6 +314,9 @@ def join_aux(source_name, source_key, source_delete,  # noqa: C901
                 if copy_properties:
                     to_copy = copy.deepcopy(source_field)
                 data_type = source_field['type']
+                if agg in ('avg', 'median') and data_type == 'integer':
+                    # the average / median of integers is not necessarily an integer
+                    data_type = 'number'
             try:
                 existing_field = next(iter(filter(
                     lambda f: f['name'] == name,
